@@ -776,7 +776,7 @@ MANIFEST = {
     "0 <= start <= end <= len) holds after construction for every string and is preserved by every operation and hence by every history "
     "(inv_init, inv_step, inv_history, step_total); per-operation refinement view(op t) = <list operation>(view t) - characters, order and "
     "the ordered list of style names of every survivor - for construction, copy, append(str), append(Text)/append_text, the plain setter, "
-    "pad_left, pad_right, right_crop (every amount >= 0), set_length, text[i], stylize (exact slice semantics for negative / out-of-range "
+    "pad_left, pad_right, right_crop (every amount >= 0), set_length, text[i], join (and the invariant for assemble), stylize (exact slice semantics for negative / out-of-range "
     "offsets), copy_styles / highlighters; styling-only operations never change characters or len() (any arguments). Six defects of rich "
     "9.10.0 are carried as model variant flags with machine-checked witnesses (old_* theorems). "
     "Tie: every modelled function (27 driver entry points incl. divide, split, slices, join, assemble, expand_tabs, truncate, align, "
@@ -785,8 +785,8 @@ MANIFEST = {
     "(list of (char, style names)) undergoes 'the same operation on an ordinary string' and is compared with plain / len() / render() of "
     "the real object after every step of every history (bounded-exhaustive single operations with arguments inside, at and beyond both "
     "ends + seeded random histories of 1..12 operations over 27 operation kinds, shrunk on failure).",
-    "note": "PARTIAL: the refinement/invariant theorems for divide (and what is built on it: split, text[a:b], expand_tabs), join/assemble "
-    "(folds of appendText), truncate/align/rstrip (instances of the proved plain-setter theorem) and render_view (render = view under Inv) "
+    "note": "PARTIAL: the refinement/invariant theorems for divide (and what is built on it: split, text[a:b], expand_tabs), the view of assemble, "
+    "truncate/align/rstrip (instances of the proved plain-setter theorem) and render_view (render = view under Inv) "
     "are stated in Props/C05.lean as open obligations, not proved; for these the evidence is the correspondence plus the direct evaluation. "
     "Trusted: Lean kernel; axioms propext/Classical.choice/Quot.sound; translator harness/gen/text_tables.py (STRIP_CONTROL_CODES, and "
     "the running CPython's str.isspace set, cross-checked against regex \\s and str.rstrip); the correspondence harness; "
